@@ -160,6 +160,26 @@ def _install():
         def cholesky(self, a, **kw):
             return real_slg.cholesky(shim.normalise(a), **kw)
 
+    orig_isclose = shim.NPFacade.isclose
+
+    def isclose_fork(self, a, b, rtol=1e-05, atol=1e-08, **kw):
+        """np.isclose on proxies is used as a boolean index array (`x[np.isclose(x, 0)] = 0`): concretise by forking"""
+        r = orig_isclose(self, a, b, rtol=rtol, atol=atol, **kw)
+        if isinstance(r, np.ndarray) and r.dtype == object:
+            return V.ctx().concrete_bools(r)
+        return r
+
+    def allclose_merged(self, a, b, rtol=1e-05, atol=1e-08, **kw):
+        if shim.has_sym(a) or shim.has_sym(b):
+            r = orig_isclose(self, a, b, rtol=rtol, atol=atol)
+            acc = True
+            for e in np.asarray(r, dtype=object).reshape(-1):
+                acc = _and(acc, e)
+            return acc
+        return np.allclose(shim.normalise(a), shim.normalise(b), rtol=rtol, atol=atol, **kw)
+
+    shim.NPFacade.isclose = isclose_fork
+    shim.NPFacade.allclose = allclose_merged
     fnnls_mod.np = SolverNP(np)
     fnnls_mod.slg = SlgFacade()
     shim.NPFacade.linalg = LinalgFacade()
@@ -231,11 +251,12 @@ def _install():
             lhs, rhs = a.arg(0), a.arg(1)
             if z3.is_rational_value(lhs) and not z3.is_rational_value(rhs):
                 lhs, rhs = rhs, lhs             # the band is symmetric
-            if z3.is_rational_value(rhs) and abs(frac(rhs)) <= DELTA:
+            delta = DELTA * _STATE.get("margin_scale", 1)     # margin in the units of the data (small-unit cases)
+            if z3.is_rational_value(rhs) and abs(frac(rhs)) <= delta:
                 # comparison against the solver's tolerance (~1e-16): robust iff |lhs| >= 2*delta
-                t, width = lhs, 2 * DELTA
+                t, width = lhs, 2 * delta
             else:
-                t, width = z3.simplify(lhs - rhs), DELTA
+                t, width = z3.simplify(lhs - rhs), delta
             if constant_in_band(self, t, width):
                 continue
             w = V.rval(width)
@@ -598,10 +619,12 @@ FUNC_M1 = [[1, 0], [1, 1], [0, 1], [2, 0], [1, 1], [0, 2], [1, 0], [0, 0], [0, 1
 FUNC_M2 = [[1], [0], [1], [0], [3], [0], [1], [0], [1]]
 FUNC_OVERRIDE = [[0.5], [0.25], [1.0], [0.0], [2.0], [0.125], [0.75], [0.0], [1.5]]   # operated_mapping_matrix_override (dyadic)
 DIAG_ADD = 2.0 ** -10
+SMALL_UNIT = 24           # small-unit cases: image = 2^-24 (6e-8) times an O(1) image.  Not smaller: the solver's own absolute
+#                           tolerance 2.2e-16 n leaves relative gradients up to A_ii * tol / scale (1.4e-7 at 2^-26, 5e-7 at 2^-30)
 SUB_SIZE = 2             # over-sampling of the mapper: fractional mapping-matrix entries / data weights
 
 
-def _full_data(inp, region, sym):
+def _full_data(inp, region, sym, scale_exp=0):
     """image values on the unmasked region: concrete base pattern (signed, noise-like) with the entries listed in
     `sym` replaced by the (symbolic) inputs"""
     n = region[0] * region[1]
@@ -609,6 +632,9 @@ def _full_data(inp, region, sym):
     data = [np.float64(DATA_BASE[k % len(DATA_BASE)]) for k in range(n)]
     for v, k in zip(vals, sym):
         data[k] = v
+    if scale_exp:
+        c = 2.0 ** -scale_exp          # image in small units (exact power of two): everything downstream must scale with it
+        data = [x * c for x in data]
     return data
 
 
@@ -764,16 +790,30 @@ def _forced_ids(shapes, edge, zero_pixels, lin_objs):
     return sorted(forced)
 
 
-def _setup_inversion(inp, region, sym, objs, mesh):
-    data = _full_data(inp, region, sym)
+def _setup_inversion(inp, region, sym, objs, mesh, scale_exp=0):
+    data = _full_data(inp, region, sym, scale_exp)
     aa, mask, mask_arr, noise2d, dataset = _dataset_pieces(data, region)
     lin_objs, shapes = _linear_objs(aa, mask, dataset, objs, mesh)
     Bs, Fref, Href, Dref = _reference_system(mask_arr, noise2d, lin_objs, data)
     return aa, dataset, lin_objs, shapes, Bs, Fref, Href, Dref
 
 
-def body_inversion(inp, region, sym, objs, mesh, w_tilde, positive, warm, edge, history, zero_pixels=None):
-    aa, dataset, lin_objs, shapes, Bs, Fref, Href, Dref = _setup_inversion(inp, region, sym, objs, mesh)
+def _unscale(x, c):
+    """value(s) in units of the image scale c (exact: c is a power of two)"""
+    if isinstance(x, hx.Raised) or x is None or isinstance(x, str):
+        return x
+    if isinstance(x, (list, tuple)):
+        return [_unscale(e, c) for e in x]
+    return x / c
+
+
+def body_inversion(inp, region, sym, objs, mesh, w_tilde, positive, warm, edge, history, zero_pixels=None, scale_exp=0):
+    aa, dataset, lin_objs, shapes, Bs, Fref, Href, Dref = _setup_inversion(inp, region, sym, objs, mesh, scale_exp)
+    c = 2.0 ** -scale_exp
+    if scale_exp:
+        # the image is c times an O(1) image, the noise map is unchanged: D, s and the model data are c times their O(1)
+        # counterparts.  All outputs are compared in units of c (so tolerances are relative to the scale of the data).
+        Dref = _unscale(Dref, c)
     Aref = Fref + Href
     n = Aref.shape[0]
     settings = aa.SettingsInversion(use_w_tilde=w_tilde, use_positive_only_solver=positive,
@@ -806,6 +846,8 @@ def body_inversion(inp, region, sym, objs, mesh, w_tilde, positive, warm, edge, 
                 Eout[tag + "solves_or_raises_InversionException"] = "InversionException"
             continue
         s = _vec(r)
+        if scale_exp:
+            s = _unscale(s, c)
         Aout[tag + "solution"] = np.array(s, dtype=object)
         if len(s) != n:
             Aout[tag + "returns_a_solution"] = "length %d" % len(s)
@@ -827,15 +869,15 @@ def body_inversion(inp, region, sym, objs, mesh, w_tilde, positive, warm, edge, 
             Aout[tag + "solves_or_raises_InversionException"] = res
             Eout[tag + "solves_or_raises_InversionException"] = True
         # per-object views
-        rd = hx.attempt(lambda: [_vec(v) for v in inv.reconstruction_dict.values()])
+        rd = hx.attempt(lambda: _unscale([_vec(v) for v in inv.reconstruction_dict.values()], c))
         off, exp_rd = 0, []
         for Bk in Bs:
             exp_rd.append(s[off:off + Bk.shape[1]])
             off += Bk.shape[1]
         Aout[tag + "reconstruction_dict"] = rd
         Eout[tag + "reconstruction_dict"] = exp_rd
-        md = hx.attempt(lambda: [_vec(v) for v in inv.mapped_reconstructed_data_dict.values()])
-        tot = hx.attempt(lambda: _vec(inv.mapped_reconstructed_data))
+        md = hx.attempt(lambda: _unscale([_vec(v) for v in inv.mapped_reconstructed_data_dict.values()], c))
+        tot = hx.attempt(lambda: _unscale(_vec(inv.mapped_reconstructed_data), c))
         exp_md = []
         for Bk, sk in zip(Bs, exp_rd):
             col = []
@@ -952,7 +994,11 @@ def case_inversion(ctx, **cfg):
                 sol = actual.get(tag + "solution")
                 _check_linear_in_solution(ctx, k, actual.get(k), expected[k], list(sol) if sol is not None else [])
 
-    _guarded(ctx, go)
+    _STATE["margin_scale"] = Fraction(1, 2 ** cfg.get("scale_exp", 0))
+    try:
+        _guarded(ctx, go)
+    finally:
+        _STATE["margin_scale"] = 1
 
 
 def shim_native():
@@ -996,7 +1042,8 @@ BOUNDS = {
              "rectangular 3x5 mesh with force_edge_pixels_to_zeros (3 free parameters; mapping+cold, w_tilde+warm, Preloads history, "
              "force_edge_image_pixels_to_zeros); mapper preceded / surrounded by function lists ([func, mapper], [func, mapper, func], 3x3 mesh) "
              "with edge forcing and with image_pixels_source_zero, both formalisms; function lists with an operated_mapping_matrix_override "
-             "(dyadic, different from the convolved mapping matrix) alone, with a second list and with a mapper, both solvers. Strongly correlated systems: 3 SPD matrices of n=5 (nearly collinear columns, condition "
+             "(dyadic, different from the convolved mapping matrix) alone, with a second list and with a mapper, both solvers; small-unit data (image 2^-24 times an O(1) image with 2 symbolic values; mapper with forced edges, [func, mapper], single function list): "
+             "outputs, KKT tolerances and the decision margin in units of the image scale. Strongly correlated systems: 3 SPD matrices of n=5 (nearly collinear columns, condition "
              "numbers 1.5e3-7e3, entries on a 1/64 grid) with the right-hand side restricted to affine families b = b0 + sum t_k e_i, "
              "t_k symbolic in [-4,4], through a noise-like b0: all 5 coordinate segments (cold; 3 warm) per matrix and the plane (e_0,e_3) "
              "for two matrices (the full box is beyond nlsat for such matrices). Every solver comparison forks (decision margin 2^-30).",
@@ -1015,6 +1062,8 @@ OUTSIDE = [
     "positive-only solver with a rectangular mapper and force_edge_pixels_to_zeros=False (>= 9 free parameters)",
     "image values outside [-10, 10]; the construction of F, H, D themselves (C04), of the mapping matrices (C06) and of the convolution (C03): "
     "the reference system is built from the repo's mapping matrices and regularization matrices with an independent convolution / normal equations",
+    "image scales below 2^-24 and more than 2 free parameters at small scale: fnnls_cholesky's absolute tolerance 2.2e-16 n limits unit covariance "
+    "(relative KKT residual up to A_ii*tol/scale exceeds 1e-7 from 2^-26 on; n = 3 at 2^-24 has decision regions thinner than the scaled margin)",
     "interferometer inversions, Delaunay / Voronoi meshes, adaptive regularisation",
 ]
 STUBS = [
@@ -1040,10 +1089,10 @@ ASSUMPTIONS = [
 ]
 
 
-def _inv(region, sym, objs, mesh, w_tilde, positive, warm, edge, history=0, zero_pixels=None):
+def _inv(region, sym, objs, mesh, w_tilde, positive, warm, edge, history=0, zero_pixels=None, scale_exp=0):
     return {"region": list(region), "sym": list(sym), "objs": objs, "mesh": list(mesh) if mesh else None,
             "w_tilde": w_tilde, "positive": positive, "warm": warm, "edge": edge, "history": history,
-            "zero_pixels": zero_pixels}
+            "zero_pixels": zero_pixels, "scale_exp": scale_exp}
 
 
 ALL9 = list(range(9))
@@ -1116,6 +1165,15 @@ def cases(tier):
     out.append(("case_inversion", _inv((3, 3), [3, 4], "func+rect", (3, 3), True, True, True, True, zero_pixels=[4])))
     out.append(("case_inversion", _inv((3, 3), [3, 4, 5], "func+rect+func2", (3, 3), False, True, False, True, zero_pixels=[4])))
     out.append(("case_inversion", _inv((3, 3), [3, 4, 5], "func+rect+func2", (3, 3), True, True, True, True)))
+    # small-unit data (image values 2^-24 times an O(1) image, noise map unchanged): D, s and the model data must scale
+    # with the image; all outputs and the decision margin are taken in units of the image scale
+    out.append(("case_inversion", _inv((3, 3), [3, 4], "rect", (3, 3), False, True, False, True, scale_exp=SMALL_UNIT)))
+    out.append(("case_inversion", _inv((3, 3), [3, 4], "func+rect", (3, 3), True, True, True, True, scale_exp=SMALL_UNIT)))
+    out.append(("case_inversion", _inv((3, 3), [3, 4], "func", None, False, True, False, False, scale_exp=SMALL_UNIT)))
+    if thorough:
+        out.append(("case_inversion", _inv((3, 3), [3, 4], "func+rect", (3, 3), False, True, False, True, scale_exp=SMALL_UNIT)))
+        out.append(("case_inversion", _inv((3, 3), [3, 4], "rect", (3, 3), True, True, True, True, zero_pixels=[0], scale_exp=SMALL_UNIT)))
+        out.append(("case_inversion", _inv((3, 3), [3, 4], "func", None, False, True, True, False, scale_exp=SMALL_UNIT)))
     # function list with an operated_mapping_matrix_override (alone / with a second list / with a mapper), both solvers
     out.append(("case_inversion", _inv((3, 3), ALL9, "funcov+func2", None, False, False, False, False)))
     out.append(("case_inversion", _inv((3, 3), [3, 4], "funcov+func2", None, False, True, True, False)))
